@@ -7,30 +7,38 @@ import Proofs.C08Expire
 namespace MongoModel.Proofs.C08Lemmas
 open MongoModel MongoModel.Spec
 
+/-- `c'` is `c` as a failed write may leave it: `c` itself or `c` after the expiry pass at that
+    clock, up to the counter of generated ObjectIds - and up to the created flag, which a
+    rejected insert that had already stored its document leaves set (`Coll.markStored`); that
+    can only happen where the uniqueness check can reject, i.e. on a collection with an index.
+    Where existence is recorded (`Coll.Recorded`, every reachable state) such a collection has
+    the flag already and `Near` is `Spec.Untouched` (`near_untouched`). -/
 def Near (now : Int) (c c' : Coll) : Prop :=
-  (∃ n, c' = { c with nextOid := n }) ∨
-  (∃ n c1, expire now c = .ok c1 ∧ c' = { c1 with nextOid := n })
+  ∃ b : Bool, (b = true → c.indexes ≠ []) ∧
+    ((∃ n, c' = ({ c with nextOid := n } : Coll).markStored b) ∨
+     (∃ n c1, expire now c = .ok c1 ∧ c' = ({ c1 with nextOid := n } : Coll).markStored b))
 
-theorem Near.refl (now : Int) (c : Coll) : Near now c c := .inl ⟨c.nextOid, rfl⟩
+theorem Near.refl (now : Int) (c : Coll) : Near now c c :=
+  ⟨false, by simp, .inl ⟨c.nextOid, rfl⟩⟩
 
 theorem Near.bump {now : Int} {c c' : Coll} (h : Near now c c') (n : Nat) :
     Near now c { c' with nextOid := n } := by
-  rcases h with ⟨m, rfl⟩ | ⟨m, c1, h1, rfl⟩
-  · exact .inl ⟨n, rfl⟩
-  · exact .inr ⟨n, c1, h1, rfl⟩
+  obtain ⟨b, hb, ⟨m, rfl⟩ | ⟨m, c1, h1, rfl⟩⟩ := h
+  · exact ⟨b, hb, .inl ⟨n, by rw [markStored_bump]⟩⟩
+  · exact ⟨b, hb, .inr ⟨n, c1, h1, by rw [markStored_bump]⟩⟩
 
 theorem Near.expire {now : Int} {c c' c'' : Coll} (h : Near now c c')
     (he : expire now c' = .ok c'') : Near now c c'' := by
-  rcases h with ⟨m, rfl⟩ | ⟨m, c1, h1, rfl⟩
-  · rw [expire_bump] at he
+  obtain ⟨b, hb, ⟨m, rfl⟩ | ⟨m, c1, h1, rfl⟩⟩ := h
+  · rw [expire_markStored, expire_bump] at he
     cases h1 : MongoModel.expire now c with
     | error e => simp [h1, Except.map] at he
     | ok c1 =>
       simp only [h1, Except.map, Except.ok.injEq] at he
-      exact .inr ⟨m, c1, h1, he.symm⟩
-  · rw [expire_bump, expire_idem now c c1 h1] at he
+      exact ⟨b, hb, .inr ⟨m, c1, h1, he.symm⟩⟩
+  · rw [expire_markStored, expire_bump, expire_idem now c c1 h1] at he
     simp only [Except.map, Except.ok.injEq] at he
-    exact .inr ⟨m, c1, h1, he.symm⟩
+    exact ⟨b, hb, .inr ⟨m, c1, h1, he.symm⟩⟩
 
 theorem Near.expire' {now : Int} {c c' : Coll} (h : Near now c c') :
     Near now c (match MongoModel.expire now c' with | .ok x => x | .error _ => c') := by
@@ -38,11 +46,29 @@ theorem Near.expire' {now : Int} {c c' : Coll} (h : Near now c c') :
   | error e => exact h
   | ok x => exact h.expire he
 
+/-- a rejected insert that had stored its document, on a collection with an index -/
+theorem Near.mark {now : Int} {c c' : Coll} (h : Near now c c') (b : Bool)
+    (hb : b = true → c.indexes ≠ []) : Near now c (c'.markStored b) := by
+  obtain ⟨a, ha, ⟨m, rfl⟩ | ⟨m, c1, h1, rfl⟩⟩ := h
+  · refine ⟨a || b, ?_, .inl ⟨m, by rw [markStored_markStored]⟩⟩
+    intro hab; cases a <;> cases b <;> simp_all
+  · refine ⟨a || b, ?_, .inr ⟨m, c1, h1, by rw [markStored_markStored]⟩⟩
+    intro hab; cases a <;> cases b <;> simp_all
+
+theorem Near.indexes {now : Int} {c c' : Coll} (h : Near now c c') :
+    c'.indexes = c.indexes ∧ c'.ttlIndexes = c.ttlIndexes := by
+  obtain ⟨b, hb, ⟨m, rfl⟩ | ⟨m, c1, h1, rfl⟩⟩ := h
+  · simp
+  · have := expire_fields now c c1 h1
+    simp only [markStored_indexes, markStored_ttlIndexes]
+    exact ⟨this.1, this.2.1⟩
+
 theorem Near.trans {now : Int} {c c' c'' : Coll} (h : Near now c c') (h' : Near now c' c'') :
     Near now c c'' := by
-  rcases h' with ⟨m, rfl⟩ | ⟨m, c1, h1, rfl⟩
-  · exact h.bump m
-  · exact (h.expire h1).bump m
+  have hi := h.indexes.1
+  obtain ⟨b, hb, ⟨m, rfl⟩ | ⟨m, c1, h1, rfl⟩⟩ := h'
+  · exact (h.bump m).mark b (fun e => hi ▸ hb e)
+  · exact ((h.expire h1).bump m).mark b (fun e => hi ▸ hb e)
 
 theorem indexNames_bump (c : Coll) (n : Nat) : indexNames { c with nextOid := n } = indexNames c := by
   simp [indexNames, Coll.isCreated]
@@ -50,19 +76,40 @@ theorem indexNames_bump (c : Coll) (n : Nat) : indexNames { c with nextOid := n 
 theorem Near.visible {now : Int} {c c' : Coll} (h : Near now c c') :
     visible ⟨now, c'⟩ = visible ⟨now, c⟩ := by
   unfold Spec.visible observe
-  rcases h with ⟨m, rfl⟩ | ⟨m, c1, h1, rfl⟩
-  · simp only [expire_bump]
+  obtain ⟨b, hb, ⟨m, rfl⟩ | ⟨m, c1, h1, rfl⟩⟩ := h
+  · simp only [expire_markStored, expire_bump]
     cases h1 : MongoModel.expire now c with
-    | error e => simp [Except.map, indexNames_bump]
-    | ok c1 => simp [Except.map, indexNames_bump]
-  · simp only [expire_bump, expire_idem now c c1 h1, h1, Except.map, indexNames_bump]
+    | error e =>
+      simp only [Except.map]
+      rw [indexNames_markStored _ b (by simpa using hb), indexNames_bump]
+    | ok c1 =>
+      have hf := (expire_fields now c c1 h1).1
+      simp only [Except.map, markStored_docs]
+      rw [indexNames_markStored _ b (by simpa [hf] using hb), indexNames_bump]
+  · have hf := (expire_fields now c c1 h1).1
+    simp only [expire_markStored, expire_bump, expire_idem now c c1 h1, h1, Except.map,
+      markStored_docs]
+    rw [indexNames_markStored _ b (by simpa [hf] using hb), indexNames_bump]
 
-theorem Near.indexes {now : Int} {c c' : Coll} (h : Near now c c') :
-    c'.indexes = c.indexes ∧ c'.ttlIndexes = c.ttlIndexes := by
-  rcases h with ⟨m, rfl⟩ | ⟨m, c1, h1, rfl⟩
-  · simp
-  · have := expire_fields now c c1 h1
-    exact ⟨this.1, this.2.1⟩
+/-- where existence is recorded, `Near` is exactly: `c` or `c` after the expiry pass, up to the
+    ObjectId counter -/
+theorem Near.exact {now : Int} {c c' : Coll} (h : Near now c c') (hr : c.Recorded) :
+    (∃ n, c' = { c with nextOid := n }) ∨
+    (∃ n c1, MongoModel.expire now c = .ok c1 ∧ c' = { c1 with nextOid := n }) := by
+  obtain ⟨b, hb, ⟨m, rfl⟩ | ⟨m, c1, h1, rfl⟩⟩ := h
+  · refine .inl ⟨m, markStored_of_recorded _ b ?_ hb⟩
+    exact hr
+  · have hf := expire_fields now c c1 h1
+    refine .inr ⟨m, c1, h1, markStored_of_recorded _ b ?_ (by simpa [hf.1] using hb)⟩
+    intro hne
+    show c1.forceCreated = true
+    rw [hf.2.2.1]
+    apply hr
+    rcases hne with hd | hx
+    · left
+      intro e
+      exact hd (expire_docs_nil now c c1 h1 e)
+    · right; simpa [hf.1] using hx
 
 /-! ### the single-document update loop -/
 
